@@ -168,8 +168,8 @@ def extInit (ext : Nat) (bPos : Nat) (data : List (List Vec)) : List (List Vec) 
     else rotate (bHi : Int) (data.getD (i - bLo) [])
 
 /-- contribution of one LWE coefficient `(a, s)` to `acc_add_dft` in the extended loop, from the
-accumulators `acc` of the block start; mirrors the three guarded loops, including the guards
-`ai_hi != 0` and `(ai_hi + 1) & (two_n - 1) != 0`. -/
+accumulators `acc` of the block start; mirrors the three loops (`x_pow_a[(ai_hi + 1) & (two_n - 1)]`
+for the wrapped polynomials; only the `ai_lo = 0` case may skip the identity monomial). -/
 def extTerm (n ext : Nat) (acc : List (List Vec)) (a s : Int) (add : List (List Vec)) : List (List Vec) :=
   let twoN := 2 * n
   let aiPos := posMod a (twoN * ext)
@@ -181,9 +181,9 @@ def extTerm (n ext : Nat) (acc : List (List Vec)) (a s : Int) (add : List (List 
     if aiLo = 0 then
       if aiHi ≠ 0 then addP addi (subP (rotate (aiHi : Int) vi) vi) else addi
     else if i < aiLo then
-      if (aiHi + 1) % twoN ≠ 0 then addP addi (subP (rotate ((aiHi : Int) + 1) (vmp.getD (ext - aiLo + i) [])) vi) else addi
+      addP addi (subP (rotate (((aiHi + 1) % twoN : Nat) : Int) (vmp.getD (ext - aiLo + i) [])) vi)
     else
-      if aiHi ≠ 0 then addP addi (subP (rotate (aiHi : Int) (vmp.getD (i - aiLo) [])) vi) else addi
+      addP addi (subP (rotate (aiHi : Int) (vmp.getD (i - aiLo) [])) vi)
 
 /-- `a.chunks_exact(block)` -/
 def chunksExact {α : Type} (block : Nat) : Nat → List α → List (List α)
@@ -230,22 +230,24 @@ def modSwitch2n (n b : Nat) (limbs : List (List Int)) (left : Bool) : Outcome (L
     if n = 0 then .panic "overflow"
     else
       let log2n := bitLen (n - 1) + 1
-      let res0 := if left then l0.map (fun x => w64 (-x)) else l0
-      if b > log2n then
-        let diff := b - (log2n - 1)
+      let bits := log2n - 1                                   -- the values are taken modulo n
+      let sgn (x : Int) : Int := if left then w64 (-x) else x
+      let res0 := l0.map sgn
+      if b > bits then
+        let diff := b - bits
         .ok (res0.map fun x => divRoundByPow2 x diff)
-      else if b = 0 then .panic "overflow"                  -- `log2n % base2k`
+      else if b = 0 then .panic "overflow"                  -- `bits % base2k`
       else
-        let rem := b - log2n % b
-        let size := (log2n + b - 1) / b
+        let rem := b - bits % b
+        let size := (bits + b - 1) / b
         if size > limbs.length then .panic "assert"         -- `at(0, i)` past the last limb
         else
           .ok ((List.range (size - 1)).foldl (fun y i' =>
             let i := i' + 1
-            let xi := limbs.getD i []
+            let xi := (limbs.getD i []).map sgn
             if i = size - 1 ∧ rem ≠ b then
               let kRem := b - rem
-              List.zipWith (fun x y => w64 (w64 (y * 2 ^ kRem) + x / 2 ^ rem)) xi y
+              List.zipWith (fun x y => w64 (w64 (y * 2 ^ kRem) + divRoundByPow2 x rem)) xi y
             else
               List.zipWith (fun x y => w64 (w64 (y * 2 ^ b) + x)) xi y) res0)
 
